@@ -271,6 +271,8 @@ def spec_len(spec):
         return spec["shape"][0]
     if k == "empty":
         return 0
+    if k == "virtual":
+        return spec_len(spec["content"])
     return spec["n"]
 
 
@@ -284,6 +286,8 @@ def value_of(spec):
     k = spec["k"]
     if k == "empty":
         return []
+    if k == "virtual":
+        return value_of(spec["content"])
     if k == "numpy":
         dt = spec["dtype"]
         code, isz = DTYPES[dt][1], DTYPES[dt][2]
@@ -365,6 +369,9 @@ class Realized:
     def __init__(self):
         self.bufs = []      # (handle, nbytes, role, itemsize) of index/mask/tag buffers (targets of corruption faults)
         self.all = []       # every handle created (to drop the intermediates)
+        self.cache = 0      # cache handle shared by the virtual nodes (0 = no cache)
+        self.gens = {}      # key -> generator handle of each virtual node
+        self.virtuals = {}  # key -> VirtualArray handle
 
 
 def realize(node, spec, rz=None):
@@ -390,6 +397,13 @@ def realize(node, spec, rz=None):
 
     if k == "empty":
         h = node.empty()
+    elif k == "virtual":
+        c = realize(node, spec["content"], rz)
+        wrong = realize(node, spec["wrong"], rz) if spec.get("wrong") else 0
+        g = node.gen_new(c, spec["declare_form"], spec["declare_length"], wrong, 0, spec["key"])
+        rz.gens[spec["key"]] = g
+        h = node.virtual(g, rz.cache if spec.get("cached", True) else 0, spec["key"])
+        rz.virtuals[spec["key"]] = h
     elif k == "numpy":
         data = bytes.fromhex(spec["buf"])
         b = node.buf(data)
@@ -464,6 +478,8 @@ def keys_of(spec):
 
 def depth_of(spec):
     k = spec["k"]
+    if k == "virtual":
+        return depth_of(spec["content"])
     if k in ("listoffset", "list", "regular") and not spec.get("param"):
         return 1 + depth_of(spec["content"])
     if k in ("indexed", "bytemasked", "bitmasked", "unmasked"):
@@ -473,3 +489,98 @@ def depth_of(spec):
     if k == "record":
         return max([depth_of(c) for c in spec["contents"]] + [1])
     return 1
+
+
+# ================================================================================================ lazy variants
+SWAP = {"int64": "float64", "float64": "int64", "int32": "float32", "float32": "int32", "int16": "uint16", "uint16": "int16",
+        "int8": "uint8", "uint8": "int8", "uint32": "int32", "uint64": "int64", "bool": "int8", "complex128": "float64",
+        "datetime64": "int64", "timedelta64": "int64"}
+
+
+def strip_virtuals(spec):
+    import copy
+    if spec["k"] == "virtual":
+        return strip_virtuals(spec["content"])
+    d = {k: v for k, v in spec.items() if k not in ("content", "contents")}
+    d = copy.deepcopy(d)
+    if "content" in spec:
+        d["content"] = strip_virtuals(spec["content"])
+    if "contents" in spec:
+        d["contents"] = [strip_virtuals(c) for c in spec["contents"]]
+    return d
+
+
+def wrong_form_variant(spec):
+    """the same tree with the first numeric leaf reinterpreted as another primitive type of the same size: an array
+    of the right length whose Form differs from the declared one. None when the tree has no such leaf."""
+    d = strip_virtuals(spec)
+
+    def walk(s):
+        if s["k"] == "numpy" and not s.get("param"):
+            new = SWAP.get(s["dtype"])
+            if new is None:
+                return False
+            if DTYPES[new][2] != DTYPES[s["dtype"]][2]:
+                return False
+            s["dtype"] = new
+            s["unit"] = ""
+            return True
+        for c in ([s["content"]] if "content" in s else s.get("contents", [])):
+            if walk(c):
+                return True
+        return False
+    return d if walk(d) else None
+
+
+def insert_virtuals(r, spec, nmax, declare_form, declare_length, prefix="k"):
+    """returns a copy of spec with up to nmax VirtualArray nodes inserted (never directly under a string list: the
+    validity rules require a NumpyArray there). Keys are unique."""
+    import copy
+    d = copy.deepcopy(spec)
+    sites = []
+
+    def collect(s, parent, slot):
+        if not (parent is not None and parent.get("param")) and s["k"] != "empty":
+            sites.append((parent, slot))
+        if "content" in s:
+            collect(s["content"], s, "content")
+        for i, c in enumerate(s.get("contents", [])):
+            collect(c, s, ("contents", i))
+    collect(d, None, None)
+    r.shuffle(sites)
+    chosen = sites[:r.randint(1, max(1, nmax))]
+    count = [0]
+
+    def wrap(s):
+        key = "%s%d" % (prefix, count[0])
+        count[0] += 1
+        v = {"k": "virtual", "key": key, "content": s, "declare_form": declare_form, "declare_length": declare_length,
+             "cached": True, "wrong": wrong_form_variant(s)}
+        return v
+    root = d
+    # wrap deepest first so that parents stay reachable
+    for parent, slot in chosen:
+        if parent is None:
+            continue
+        if slot == "content":
+            parent["content"] = wrap(parent["content"])
+        else:
+            parent["contents"][slot[1]] = wrap(parent["contents"][slot[1]])
+    if any(p is None for p, _ in chosen):
+        root = wrap(d)
+        if r.random() < 0.2:
+            root = wrap(root)      # virtual of virtual
+            # the outer generator produces a VirtualArray: what "the Form of a virtual array" is depends on whether
+            # the inner one has been materialised, so nothing is declared for it
+            root["declare_form"] = False
+            root["wrong"] = None
+    return root
+
+
+def virtual_keys(spec, out=None):
+    out = out if out is not None else []
+    if spec["k"] == "virtual":
+        out.append(spec["key"])
+    for c in ([spec["content"]] if "content" in spec else spec.get("contents", [])):
+        virtual_keys(c, out)
+    return out
